@@ -91,11 +91,12 @@ CONST_KIND = {'fzero': 'Z', 'finf': 'PINF', 'fninf': 'NINF', 'fnan': 'NAN'}
 
 
 class Raw(object):
-    def __init__(self, kind, sign=0, expc=None, tag=''):
+    def __init__(self, kind, sign=0, expc=None, tag='', const=None):
         self.kind = kind
         self.sign = sign
         self.expc = expc
         self.tag = tag          # distinguishes the symbols of two raws (real / imaginary part)
+        self.const = const      # name of the module constant this value is (fone, fnone, ...)
 
     def fields(self):
         if self.kind != 'N':
@@ -195,6 +196,8 @@ class ClassInterp(object):
             if len(v.coef) == 1 and v.c == 0:
                 (name, k), = v.coef.items()
                 cls = self.symclass.get(name)
+                if cls is None and (name.startswith('man') or name.startswith('bc')):
+                    cls = 'POS'         # mantissa and bit count of a normal number
                 if k > 0:
                     return {'POS': 'POS', 'ZERO': 'ZERO', 'NEG': 'NEG'}.get(cls)
         if isinstance(v, PyInt):
@@ -207,6 +210,14 @@ class ClassInterp(object):
             if not isinstance(op, (ast.Eq, ast.NotEq)):
                 raise Unsupported('ordering of raw tuples')
             if a.kind == 'N' and b.kind == 'N':
+                if a.const and b.const:
+                    eq = a.const == b.const
+                    return Int(eq if isinstance(op, ast.Eq) else not eq)
+                if a.sign != b.sign:
+                    return Int(isinstance(op, ast.NotEq))
+                if hasattr(self, 'choose'):
+                    c = self.choose('%s == %s' % (a.label(), b.label()))
+                    return Int(c if isinstance(op, ast.Eq) else not c)
                 raise Unsupported('equality of two normal numbers is not determined by their classes')
             eq = a.kind == b.kind
             return Int(eq if isinstance(op, ast.Eq) else not eq)
@@ -328,6 +339,8 @@ class ClassInterp(object):
                 return Int(r if isinstance(op, ast.In) else not r)
             b = self.ev(e.comparators[0], env)
             return self.compare(op, a, b)
+        if isinstance(e, ast.IfExp):
+            return self.ev(e.body if self.truth(self.ev(e.test, env)) else e.orelse, env)
         if isinstance(e, ast.BinOp):
             a, b = self.ev(e.left, env), self.ev(e.right, env)
             return self.binop(e.op, a, b)
@@ -417,7 +430,7 @@ class ClassInterp(object):
         def __init__(self, v):
             self.v = v
 
-    def run(self, fnode, args):
+    def run(self, fnode, args, kwargs=None):
         self.depth += 1
         if self.depth > 12:
             raise Unsupported('recursion too deep')
@@ -425,6 +438,8 @@ class ClassInterp(object):
         if params and params[0] in ('ctx', 'self'):
             params = params[1:]
         env = dict(zip(params, args))
+        if kwargs:
+            env.update(kwargs)
         # defaults
         defaults = fnode.args.defaults
         for p, d in zip(params[len(params) - len(defaults):], defaults):
@@ -575,8 +590,16 @@ class KernelInterp(ClassInterp):
     def ev(self, e, env):
         if isinstance(e, ast.Dict):
             return ('dict', [(self.ev(k, env), self.ev(v, env)) for k, v in zip(e.keys, e.values)])
+        if isinstance(e, ast.Subscript) and isinstance(e.value, ast.Name) and e.value.id in (
+                'negative_rnd', 'reciprocal_rnd') and e.value.id not in env:
+            return Int('rnd')
         if isinstance(e, ast.Subscript) and not isinstance(e.slice, ast.Constant):
             base = self.ev(e.value, env)
+            if isinstance(base, Tuple):
+                k = self.ev(e.slice, env)
+                if isinstance(k, Int) and isinstance(k.v, (int, bool)):
+                    return base.items[int(k.v)]
+                raise Arith('computed index')
             if isinstance(base, tuple) and base and base[0] == 'dict':
                 k = self.ev(e.slice, env)
                 for kk, vv in base[1]:
@@ -586,7 +609,15 @@ class KernelInterp(ClassInterp):
         if isinstance(e, ast.Name) and e.id.startswith('round_') and e.id not in env:
             return Int(e.id)
         if isinstance(e, ast.Name) and e.id in ('fone', 'fnone', 'ftwo', 'fhalf', 'ften') and e.id not in env:
-            return Raw('N', 1 if e.id == 'fnone' else 0, 'ANY', tag='_c')
+            return Raw('N', 1 if e.id == 'fnone' else 0, 'ANY', tag='_c', const=e.id)
+        if isinstance(e, (ast.List,)):
+            return Tuple([self.ev(x, env) for x in e.elts])
+        if isinstance(e, ast.Subscript) and isinstance(e.value, ast.Name) and e.value.id in (
+                'negative_rnd', 'reciprocal_rnd') and e.value.id not in env:
+            return Int('rnd')
+        if isinstance(e, ast.Name) and e.id not in env and e.id not in CONST_KIND and (
+                e.id.isupper() or e.id.startswith('MPZ_')):
+            raise Arith('module constant %s' % e.id)
         return ClassInterp.ev(self, e, env)
 
     def truth(self, v):
@@ -614,6 +645,17 @@ class KernelInterp(ClassInterp):
             if all(isinstance(a, Int) for a in args):
                 return Int((min if fn == 'min' else max)(a.v for a in args))
             return Sym({'minmax': 1})
+        if fn in ('mpf_pi', 'mpf_e', 'mpf_ln2', 'mpf_ln10', 'mpf_phi', 'mpf_euler'):
+            return Raw('N', 0, 'ANY', tag='_k')
+        if fn == 'mpf_shift':
+            v = self.coerce_raw(self.ev(e.args[0], env))
+            if isinstance(v, Raw):
+                return v if v.kind != 'N' else Raw('N', v.sign, 'ANY', tag='_sh')
+        if fn == 'abs':
+            v = self.ev(e.args[0], env)
+            if isinstance(v, Int):
+                return Int(abs(v.v))
+            raise Arith('abs')
         if fn == 'int':
             v = self.ev(e.args[0], env)
             if isinstance(v, Int):
@@ -622,7 +664,8 @@ class KernelInterp(ClassInterp):
         f = self.lookup(fn)
         if f is not None:
             args = [self.coerce_raw(self.ev(a, env)) for a in e.args]
-            r = self.run(f, args)
+            kw = dict((k.arg, self.ev(k.value, env)) for k in e.keywords if k.arg)
+            r = self.run(f, args, kw)
             return self.coerce_raw(r)
         return ClassInterp.call(self, e, env)
 
